@@ -166,6 +166,8 @@ def c05(chk, thorough):
         loo_sel = cv.cv3_inline_loo(chk, prog, fields)
         cv.cv2(chk, prog, roles, fields, loo_sel)
     cv.cv6(chk, prog)
+    cv.cv7(chk, prog)
+    chk.floor('CV7.mean-divisor', 4)
     threads.t6(chk, prog)          # the value reported by bootstrap CV is the mean of per-iteration predictions: accumulators are fresh per batch
     layout.run(chk, prog, {'modelvalidation.c': layout.FUNCTIONS['modelvalidation.c']})
     chk.floor('CV1.dispatch', 12)
@@ -362,6 +364,9 @@ def c14(chk, thorough):
                        'witness domain for shape atoms: 0..%d' % (6 if thorough else 3)]
     prog = load_program(chk, ['vector.c', 'list.c', 'matrix.c', 'tensor.c', 'memwrapper.c'])
     strict.run(chk, prog, dom=4 if thorough else 3)
+    from . import copyshape
+    copyshape.run(chk, prog)
+    chk.floor('CP.block-shapes', 3)
     if chk.extra.get('strict_functions', 0) < 70:
         chk.broke('only %d strict-mode functions found, floor 70' % chk.extra.get('strict_functions', 0))
     chk.floor('S.bounds', 250)
@@ -579,6 +584,11 @@ def c17(chk, thorough):
                                          'metricspace.c': ['EuclideanDistance', 'EuclideanWorker', 'MatrixEuclideanDistance', 'SquaredEuclideanDistance']},
                              table=guards.KMEANS_TOLERANCE_TABLE, rule='SV.tolerance',
                              what='k-means labelling, centroid update, distance and MDC ranking routines')
+    from . import offsets
+    # the arg-max / arg-min searches of the selection methods (farthest-first pick, most descriptive compound) run against an element of the
+    # scanned sequence or a true bound, never a literal some value may lie below (cosine "distances" are in [-1, 1])
+    offsets.argmax_rule(chk, prog, ['MDC', 'MaxDis', 'MaxDis_Fast', 'KMeansppCenters', 'PruneResults'])
+    chk.floor('OF.argmax', 3)
     slices.run(chk, prog, rmax=40 if thorough else 12, nmax=24 if thorough else 8, dom=4 if thorough else 3)
     chk.floor('KM.nearest', 4)
     chk.floor('KM.centroid-mean', 6)
